@@ -52,6 +52,60 @@ def _lex_case(text):
     return None if a == b else (repr(a)[:300], repr(b)[:300])
 
 
+def _interleave_case(pair):
+    """two lexers alive at once, advanced in lock step; then two parsers built before either is run: every
+    object must behave as it does alone (the verdict on a string does not depend on what else is being read)"""
+    import antlr4
+    from blackbird.blackbirdLexer import blackbirdLexer
+    from blackbird.blackbirdParser import blackbirdParser
+    t1, t2 = pair
+    o = oracle()
+    try:
+        la = blackbirdLexer(antlr4.InputStream(t1))
+        la.removeErrorListeners()
+        out = {0: [], 1: []}
+        first = la.nextToken()
+        lb = blackbirdLexer(antlr4.InputStream(t2))
+        lb.removeErrorListeners()
+        lex = [la, lb]
+        done = [first.type == -1, False]
+        if not done[0]:
+            out[0].append((blackbirdLexer.symbolicNames[first.type], first.text, first.start))
+        turn = 1
+        while not all(done):
+            if not done[turn]:
+                t = lex[turn].nextToken()
+                if t.type == -1:
+                    done[turn] = True
+                else:
+                    out[turn].append((blackbirdLexer.symbolicNames[t.type], t.text, t.start))
+            turn = 1 - turn
+    except Exception as e:  # noqa
+        return ("interleaved-lexers-raise", common.exc_sig(e))
+    for k, t in ((0, t1), (1, t2)):
+        if out[k] != o.tokens(t):
+            return ("interleaved-lexers", "lexer %d of 2 on %r gives %r, alone/grammar %r" % (k + 1, t, out[k][:8], o.tokens(t)[:8]))
+    # parsers built first, run afterwards (token streams fetch lazily), in both orders
+    for order in ((0, 1), (1, 0)):
+        ps = []
+        for t in (t1, t2):
+            lx = blackbirdLexer(antlr4.InputStream(t))
+            lx.removeErrorListeners()
+            pr = blackbirdParser(antlr4.CommonTokenStream(lx))
+            pr.removeErrorListeners()
+            ps.append(pr)
+        for k in order:
+            t = (t1, t2)[k]
+            try:
+                ps[k].start()
+                ok = ps[k].getNumberOfSyntaxErrors() == 0
+            except Exception as e:  # noqa
+                return ("prebuilt-parsers-raise", common.exc_sig(e))
+            if ok != (o.verdict(t)[0] == "OK"):
+                return ("prebuilt-parsers", "parser built before another one and run %s: accepts=%r on %r, grammar says %r" % ("first" if order[0] == k else "second", ok, t[:80], o.verdict(t)[0]))
+    return None
+
+
 def _parse_case(text):
     o = oracle()
     m = o.verdict(text)
@@ -260,6 +314,16 @@ def run(ctx):
         if r is not None:
             lex_bad += 1
             V.add("C14/lexer-replay", {"part": "b-replay", "text": t}, "real lexer %s vs grammar %s" % r)
+    # (b'') several lexers / parsers alive at once
+    valid = "name a\nversion 1.0\n\nfloat x = 0.5 # c\nG(x, k=[1, 2]) | [0, 1]\n"
+    inter = [(valid, valid), (valid, "name b\nversion 1.0\n\nfor int i in 0:2\n    H(i) | i\n"), ("G(1) | 0 # c\n", valid), (valid, "name $\n"), ("1 +  2 # x\n", "a  b\tc")]
+    for a_, b_ in itertools.product(ex[::3], ex[::4]):
+        inter.append((a_ + " " + b_ + " #c\n" + b_, b_ + "  " + a_))
+    ires = pool.pmap(_interleave_case, inter, chunk=20)
+    for pr_, r in zip(inter, ires):
+        if r is not None and r != "TIMEOUT":
+            V.add("C14/" + r[0], {"part": "b-interleave", "pair": list(pr_)}, r[1])
+    cov["objects_alive_at_once"] = {"pairs": len(inter), "rule": "two lexers advanced in lock step; two parsers built before either runs, run in both orders; each must give what it gives alone"}
     # (c) (d)
     pp = product.parser_product(BP, o.parser_rules)
     for m in pp["mismatches"]:
@@ -325,7 +389,7 @@ def run(ctx):
     kinds = collections.Counter(v[0] for v in cases.values())
     cov.update({
         "states": lp["states"] + pp["states"], "transitions": lp["transitions"] + pp["transitions"],
-        "traces_validated_against_impl": len(texts) + len(texts_e),
+        "traces_validated_against_impl": len(texts) + len(texts_e) + len(inter),
         "samples": [repr(x) for x in common.sample(lp["access_strings"], 4)] + [repr(x) for x in common.sample(texts_e, 4)],
         "lexer_product": {"states": lp["states"], "transitions": lp["transitions"], "char_classes": lp["char_classes"], "mismatches": len(lp["mismatches"]),
                           "replayed_on_real_lexer": len(texts), "replay_differences": lex_bad},
@@ -349,6 +413,9 @@ def replay(case):
         return (r is not None), repr(r)
     if part == "e":
         r = _parse_case(case["text"])
+        return (r is not None), repr(r)
+    if part == "b-interleave":
+        r = _interleave_case(tuple(case["pair"]))
         return (r is not None), repr(r)
     if part == "a":
         _, bad = artefact_identity()
